@@ -25,13 +25,21 @@ def strip_generics(p):
             # generic args after a path segment: skip balanced
             j = i + 3
             depth = 1
+            has_as = False
             while j < n and depth:
                 c = p[j]
                 if c == '<':
                     depth += 1
                 elif c == '>' and p[j - 1] != '-':
                     depth -= 1
+                elif depth == 1 and p.startswith(' as ', j):
+                    has_as = True
                 j += 1
+            if has_as:
+                # qualified path segment `::<T as Trait>`: keep (generics inside are stripped)
+                out.append('::<' + strip_generics(p[i + 3:j - 1]) + '>')
+                i = j
+                continue
             i = j
             continue
         out.append(p[i])
